@@ -196,6 +196,19 @@ func init() {
 		l.p("def createDropsCache : Bool := %s", leanBool(c10AssignsField(cpb, "weCache")))
 		l.p("/-- `DeletePipe` re-makes `s.weCache` -/")
 		l.p("def deleteDropsCache : Bool := %s", leanBool(c10AssignsField(dpb, "weCache")))
+		// who saves the registry file
+		saves := map[string]bool{}
+		for _, fn := range []string{"CreatePipe", "DeletePipe", "Shutdown"} {
+			if fd := funcDecl(sf, "Service", fn); fd != nil {
+				saves[fn], _ = c10CallsMethod(fd.Body, "savePipes")
+			} else {
+				problem("pipe.Service.%s not found", fn)
+			}
+		}
+		l.p("/-- `CreatePipe` / `DeletePipe` / `Shutdown` call `savePipes` (the registry file `pipes.dat` is rewritten) -/")
+		l.p("def createSavesRegistry : Bool := %s", leanBool(saves["CreatePipe"]))
+		l.p("def deleteSavesRegistry : Bool := %s", leanBool(saves["DeletePipe"]))
+		l.p("def shutdownSavesRegistry : Bool := %s", leanBool(saves["Shutdown"]))
 		delCancels := false
 		ppf := parseFile("pkg/pipe/ppipe.go")
 		if fd := funcDecl(ppf, "ppipe", "delete"); fd != nil {
@@ -215,7 +228,7 @@ func init() {
 		}
 		l.p("/-- `workerDone` calls `startWorker` (re-arm when `Pos < LastKnwnPos`) -/")
 		l.p("def workerDoneRearms : Bool := %s", leanBool(rearm))
-		condOK := false
+		condOK, condPipe := false, false
 		if fd := funcDecl(ppf, "ppipe", "startWorker"); fd != nil {
 			ast.Inspect(fd.Body, func(n ast.Node) bool {
 				if is, ok := n.(*ast.IfStmt); ok {
@@ -227,8 +240,11 @@ func init() {
 						return true
 					})
 					s := sb.String()
-					if strings.Contains(s, "wCharged") && strings.Contains(s, "Less") && strings.Contains(s, "LastKnwnPos") && strings.Contains(s, "closedCtx") {
+					if strings.Contains(s, "wCharged") && strings.Contains(s, "Less") && strings.Contains(s, "LastKnwnPos") && (strings.Contains(s, "closedCtx") || strings.Contains(s, "clsCtx")) {
 						condOK = true
+						if strings.Contains(s, "clsCtx") || strings.Contains(s, "deleted") {
+							condPipe = true
+						}
 					}
 				}
 				return true
@@ -238,6 +254,8 @@ func init() {
 		}
 		l.p("/-- `startWorker` tests `closedCtx.Err() == nil && !pd.wCharged && pd.Pos.Less(pd.LastKnwnPos)` -/")
 		l.p("def startWorkerCondition : Bool := %s", leanBool(condOK))
+		l.p("/-- … and also that the pipe itself is alive (`pp.clsCtx` / `pp.deleted`) -/")
+		l.p("def startWorkerChecksPipeAlive : Bool := %s", leanBool(condPipe))
 		saveStatePersists := false
 		if fd := funcDecl(ppf, "ppipe", "saveState"); fd != nil {
 			saveStatePersists, _ = c10CallsMethod(fd.Body, "savePipeInfo")
